@@ -88,6 +88,7 @@ type c07Plan struct {
 	seeds       []int // seed indexes (library seeds first) that get the field-corruption enumeration
 	perSeed     int   // cases (batches) per seed
 	capPerSeed  int   // (field,value) pairs per seed at most, spread evenly over the seed's pair list
+	classCover  int   // every field class (structure:kind) gets all its values on this many instances across the seeds
 	randCases   int   // cases of random mutations
 	randPerCase int
 }
@@ -100,21 +101,70 @@ func c07PlanFor(tier string) c07Plan {
 		for k := 0; k < all; k++ {
 			p.seeds = append(p.seeds, k)
 		}
-		p.perSeed, p.capPerSeed, p.randCases, p.randPerCase = 16, 3200, 3200, 64
+		p.perSeed, p.capPerSeed, p.randCases, p.randPerCase, p.classCover = 16, 3200, 3200, 64, 30
 		return p
 	}
 	for k := 0; k < all; k++ {
-		if k < c07LibSeeds || (k-c07LibSeeds)%3 == 0 {
-			p.seeds = append(p.seeds, k)
-		}
+		p.seeds = append(p.seeds, k)
 	}
-	p.perSeed, p.capPerSeed, p.randCases, p.randPerCase = 1, 200, 160, 64
+	p.perSeed, p.capPerSeed, p.randCases, p.randPerCase, p.classCover = 1, 40, 160, 64, 3
 	return p
 }
 
 func c07Cases(tier string) int {
 	p := c07PlanFor(tier)
 	return len(p.seeds)*p.perSeed + p.randCases
+}
+
+var (
+	c07CoverMu    sync.Mutex
+	c07CoverCache = map[int]map[int]map[uint64]bool{}
+)
+
+// c07ClassCover decides, over all seeds in order, which fields get the complete value set:
+// the first field of a class (structure:kind, e.g. "GCOL:size") in a file is chosen while
+// fewer than n instances of that class have been chosen in earlier seeds. The result maps
+// seed index -> chosen field offsets.
+func c07ClassCover(n int) map[int]map[uint64]bool {
+	c07CoverMu.Lock()
+	defer c07CoverMu.Unlock()
+	if m, ok := c07CoverCache[n]; ok {
+		return m
+	}
+	c07Init()
+	out := map[int]map[uint64]bool{}
+	count := map[string]int{}
+	dir, _ := os.MkdirTemp("", "verif-c07-cover-")
+	defer os.RemoveAll(dir)
+	for k := 0; k < c07LibSeeds+len(c07Seeds); k++ {
+		var b []byte
+		if k < c07LibSeeds {
+			p := filepath.Join(dir, "seed.h5")
+			hx.Run(p, c07LibScript(k))
+			b, _ = os.ReadFile(p)
+		} else {
+			b, _ = os.ReadFile(c07Seeds[k-c07LibSeeds])
+		}
+		if len(b) == 0 {
+			continue
+		}
+		fields, _ := c07Fields(b)
+		inFile := map[string]bool{}
+		for _, f := range fields {
+			cls := f.Struct + ":" + f.Kind + fmt.Sprintf(":w%d", f.Width)
+			if inFile[cls] || count[cls] >= n {
+				continue
+			}
+			inFile[cls] = true
+			count[cls]++
+			if out[k] == nil {
+				out[k] = map[uint64]bool{}
+			}
+			out[k][f.Off<<4|uint64(f.Width)] = true
+		}
+	}
+	c07CoverCache[n] = out
+	return out
 }
 
 // c07Seed materialises seed k (library seeds first) and returns its bytes and a name.
@@ -406,18 +456,25 @@ func c07Run(c *ev.Ctx) {
 			f c07Field
 			v uint64
 		}
-		var pairs []pairT
+		var pairs, prio []pairT
+		chosen := c07ClassCover(plan.classCover)[seedIdx]
 		for _, f := range fields {
 			var tmp [8]byte
 			copy(tmp[:], b[f.Off:f.Off+uint64(f.Width)])
 			cur := binary.LittleEndian.Uint64(tmp[:])
 			for _, v := range c07Values(f, uint64(len(b)), root, ext) {
-				if v != cur {
+				if v == cur {
+					continue
+				}
+				if chosen[f.Off<<4|uint64(f.Width)] {
+					prio = append(prio, pairT{f, v}) // class cover: every value
+				} else {
 					pairs = append(pairs, pairT{f, v})
 				}
 			}
 		}
-		n := min(len(pairs), plan.capPerSeed)
+		nSpread := min(len(pairs), plan.capPerSeed)
+		n := len(prio) + nSpread
 		ran := 0
 		kinds := map[string]int{}
 		mut := make([]byte, len(b))
@@ -425,7 +482,12 @@ func c07Run(c *ev.Ctx) {
 			if c.SkipSub(j) {
 				continue
 			}
-			pr := pairs[j*len(pairs)/n] // spread evenly over the file
+			var pr pairT
+			if j < len(prio) {
+				pr = prio[j]
+			} else {
+				pr = pairs[(j-len(prio))*len(pairs)/nSpread] // spread evenly over the file
+			}
 			f, v := pr.f, pr.v
 			var tmp [8]byte
 			copy(tmp[:], b[f.Off:f.Off+uint64(f.Width)])
@@ -538,7 +600,7 @@ func c07Run(c *ev.Ctx) {
 var C07 = &ev.Property{
 	ID:    "C07",
 	Level: "fault_enumeration",
-	Rule: "seed files: every file of the bundled corpus up to 256 KiB plus 24 fixed library-written files (superblock 0/2/3, all layouts, filters, variable-length data, dense attributes and groups, links). (1) Single-field corruption, enumerated and independent of the seed: for every structural field the independent decoder maps in a seed file (signatures, versions, flags, sizes, counts, addresses, offsets, types, checksums; also inside chunk indexes, heaps and B-trees) each value of a boundary set {0,1,2,3,7,8, max/2, max/2+1, max-1, max, 0xff.., powers of two, file size and +-1, the field's own offset, the address of its own structure (self reference / cycles), the root object address, addresses of other structures} is written into a copy (quick tier: 200 (field,value) pairs spread evenly over every third corpus file and all library files; thorough: 3200 per file, all files). (2) Seeded random mutations: 1-16 bit flips or byte sets, splices between files, truncation, random bodies behind a valid prefix, zeroed and duplicated ranges. Every input is opened and read completely through the public reader inside a process with a 4 GiB address-space limit and a CPU budget of 20 s per input. Violations: recovered panic, death of the process (out of memory, stack overflow, other fatal errors), CPU budget overrun, more than 5 CPU-seconds + ten times the intact seed's, cumulative allocation above 512 MiB + 4096 x file size + twice what the intact seed needs, a canary file that reads differently afterwards. " +
+	Rule: "seed files: every file of the bundled corpus up to 256 KiB plus 24 fixed library-written files (superblock 0/2/3, all layouts, filters, variable-length data, dense attributes and groups, links). (1) Single-field corruption, enumerated and independent of the seed: for every structural field the independent decoder maps in a seed file (signatures, versions, flags, sizes, counts, addresses, offsets, types, checksums; also inside chunk indexes, heaps and B-trees) each value of a boundary set {0,1,2,3,7,8, max/2, max/2+1, max-1, max, 0xff.., powers of two, file size and +-1, the field's own offset, the address of its own structure (self reference / cycles), the root object address, addresses of other structures} is written into a copy (class cover: for every field class - structure:kind:width, e.g. GCOL:size:w8 - the complete value set on the first 3 (thorough: 30) seed files that contain the class; plus 40 (thorough: 3200) further (field,value) pairs spread evenly over each seed file). (2) Seeded random mutations: 1-16 bit flips or byte sets, splices between files, truncation, random bodies behind a valid prefix, zeroed and duplicated ranges. Every input is opened and read completely through the public reader inside a process with a 4 GiB address-space limit and a CPU budget of 20 s per input. Violations: recovered panic, death of the process (out of memory, stack overflow, other fatal errors), CPU budget overrun, more than 5 CPU-seconds + ten times the intact seed's, cumulative allocation above 512 MiB + 4096 x file size + twice what the intact seed needs, a canary file that reads differently afterwards. " +
 		"non-trivial: at least one input was run; distinct = (class, seed file, block).",
 	Assumptions:     []string{"inputs beyond the listed mutation classes are not covered: 'all byte strings' is out of reach for run-time observation"},
 	Cases:           c07Cases,
